@@ -505,6 +505,24 @@ func checkGetters(mp *multicast.UDPPeer, loopSet bool, loopKnown bool) string {
 		if iff != nil && kif == [4]byte{} {
 			return fmt.Sprintf("Outbound() reports interface %s but the kernel's IP_MULTICAST_IF is unset (0.0.0.0)", iff.Name)
 		}
+		if kif != [4]byte{} {
+			owns := false
+			if iff != nil {
+				addrs, _ := iff.Addrs()
+				for _, a := range addrs {
+					if ipn, ok := a.(*net.IPNet); ok && ipn.IP.To4() != nil && [4]byte(ipn.IP.To4()) == kif {
+						owns = true
+					}
+				}
+			}
+			if !owns {
+				name := "<nil>"
+				if iff != nil {
+					name = iff.Name
+				}
+				return fmt.Sprintf("Outbound() reports interface %s, the kernel's IP_MULTICAST_IF is %v, which is not an address of that interface", name, netip.AddrFrom4(kif))
+			}
+		}
 	}
 	return ""
 }
